@@ -345,6 +345,16 @@ def run(ctx):
                     problems.append('under expiration%stime (item expired) the item is exposed: %s' % (rel, ', '.join(sorted(set(exposes)))))
                 if removes and rel in live:
                     problems.append('under expiration%stime (item live) the item is removed: %s' % (rel, ', '.join(sorted(set(removes)))))
+            # completeness: a site that removes must remove under every expired ordering; a site that exposes must
+            # expose under every live ordering (else an entry expiring exactly at `time` survives a purge, or a live one is dropped)
+            if not problems and len(table) == 3:
+                any_rem = any(t['removes'] for t in table.values())
+                any_exp = any(t['exposes'] for t in table.values())
+                for rel in ('<', '=', '>'):
+                    if any_rem and rel not in live and not table[rel]['removes']:
+                        problems.append('under expiration%stime (item expired) the item is not removed although this site purges expired items: the predicate is not the %s-family predicate' % (rel, fam))
+                    if any_exp and rel in live and not table[rel]['exposes']:
+                        problems.append('under expiration%stime (item live) the item is not exposed although this site exposes live items' % rel)
             if not problems and not any(t['exposes'] or t['removes'] for t in table.values()):
                 problems.append('undecided: neither an exposure nor a removal of the tested item was recognised on either side of the expiry test')
             sig = 'expiry-test'
